@@ -1641,6 +1641,51 @@ func (fv *FV) ghostBuiltin(e *Env, x *ast.CallExpr, fn *types.Func) Value {
 		return Value{K: kScalar, T: fv.kvDomArr(e)}
 	case "gh_kvWrites":
 		return Value{K: kScalar, T: fv.loadComp(e, kvWrites, sInt, tNull)}
+	case "gh_sameVal":
+		// sameVal(a, b): two values of a struct type agree field by field (scalar leaves;
+		// slices by header, nested objects recursively); for other types plain equality
+		a := fv.expr(e, x.Args[0])
+		b := fv.expr(e, x.Args[1])
+		t := fv.typeOf(x.Args[0])
+		if t == nil || !isObjectType(t) {
+			return Value{K: kScalar, T: fv.valueEq(a, b)}
+		}
+		var conj []Term
+		var walk func(t types.Type, pa, pb Term)
+		walk = func(t types.Type, pa, pb Term) {
+			if isBigInt(t) {
+				conj = append(conj, eq(fv.loadComp(e, "bigval", sInt, pa), fv.loadComp(e, "bigval", sInt, pb)))
+				return
+			}
+			if arr, ok := objArray(t); ok {
+				for i := int64(0); i < arr.Len(); i++ {
+					walk(arr.Elem(), fv.elemAddr(arr.Elem(), pa, intLit(i)), fv.elemAddr(arr.Elem(), pb, intLit(i)))
+				}
+				return
+			}
+			st := structOf(t)
+			if st == nil {
+				return
+			}
+			for i := 0; i < st.NumFields(); i++ {
+				f := st.Field(i)
+				if isObjectType(f.Type()) {
+					walk(f.Type(), fv.fieldAddr(t, f, pa), fv.fieldAddr(t, f, pb))
+					continue
+				}
+				k, srt := sortOf(f.Type())
+				comp := fieldComp(t, f)
+				if k == kSlice {
+					for _, sfx := range []struct{ s, sort string }{{"#arr", sRef}, {"#off", sInt}, {"#len", sInt}} {
+						conj = append(conj, eq(fv.loadComp(e, comp+sfx.s, sfx.sort, pa), fv.loadComp(e, comp+sfx.s, sfx.sort, pb)))
+					}
+					continue
+				}
+				conj = append(conj, eq(fv.loadComp(e, comp, srt, pa), fv.loadComp(e, comp, srt, pb)))
+			}
+		}
+		walk(t, a.T, b.T)
+		return Value{K: kScalar, T: and(conj...)}
 	case "gh_chanSends":
 		// number of channel sends the function has performed (plain sends and taken send clauses of select statements)
 		return Value{K: kScalar, T: fv.loadComp(e, chanSendsComp, sInt, tNull)}
